@@ -38,17 +38,17 @@ var frozenTable = map[string]string{
 	// consumed a token without returning.
 	"(*parser).parseList$1|index|$1.tokens[$1.idx]": "buildLeafNode calls the leaf parsers in list order and returns at the first answer; parseInt (first) fails unless p.idx < len(p.tokens), and a parser that walks returns a node, so the list parser (installed last) is entered with p.idx in range",
 	// errNoNextToken passes len(source)-1, pos() clamps i into [0, len(A)) and returns early for empty A
-	"(*parser).pos|index|$1[$2]":     "i is clamped to 0 unless 0 <= i < len(A), and the function returns before this point when len(A) == 0",
-	"(*parser).pos|slice|$1[0:$2]":   "0 <= i < len(A) after the clamp",
+	"(*parser).pos|index|$1[$2]":      "i is clamped to 0 unless 0 <= i < len(A), and the function returns before this point when len(A) == 0",
+	"(*parser).pos|slice|$1[0:$2]":    "0 <= i < len(A) after the clamp",
 	"(*parser).pos|slice|$1[$2:$3]":   "l = i - 30 >= 0 on this branch and i < len(A)",
-	"(*parser).pos|slice|$1[$2+1:]":  "reached only when i < len(A)-1",
+	"(*parser).pos|slice|$1[$2+1:]":   "reached only when i < len(A)-1",
 	"(*parser).pos|slice|$1[$2+1:$3]": "reached only when r = i+30 <= len(A)-1 and i+1 <= r",
-	"(*parser).lex|slice|$1[1:]":    "reached only under strings.HasPrefix(t, \"!\"): len(t) >= 1",
+	"(*parser).lex|slice|$1[1:]":      "reached only under strings.HasPrefix(t, \"!\"): len(t) >= 1",
 	// lexer cursor: start <= i <= len(A). i starts at 0 and only ever advances by one, either under the loop guard
 	// i < len(A) or right after a rune at i was read (i < len(A) there), so i <= len(A); start is a copy of an
 	// earlier i (or i+1 under i < len(A)), and i never decreases.
-	"(*parser).lex$1|slice|$1[$2:$2]":           "comment scan: start is the value of i at entry, the loop only increments i under i < len(A): start <= i <= len(A)",
-	"(*parser).lex$3|slice|$1[$2:$3]":       "token scan: start <= i <= len(A) (start follows i past leading spaces, one step at a time, each under i < len(A); the final i += 1 happens only when start == i < len(A))",
+	"(*parser).lex$1|slice|$1[$2:$2]":        "comment scan: start is the value of i at entry, the loop only increments i under i < len(A): start <= i <= len(A)",
+	"(*parser).lex$3|slice|$1[$2:$3]":        "token scan: start <= i <= len(A) (start follows i past leading spaces, one step at a time, each under i < len(A); the final i += 1 happens only when start == i < len(A))",
 	"(*parser).lex|slice|lex$3()#0[1:len-1]": "reached only under strings.HasPrefix(t, `\"`): such a token comes from the string scanner, which returns A[start:i] only after it advanced past the opening quote and consumed a closing quote: len(t) >= 2",
 	// fetchVariableValueProxy is called from TryEval's variable arm (kind == variable) and from getNodeValueProxy's
 	// non-constant arm, which is applied only to the two leaf children of a fast operator (C05 R-FASTPROXY); by R-KIND
@@ -621,6 +621,37 @@ func arrayLenOfTable(fa *ssa.FieldAddr) (int64, bool) {
 	if ia, ok := fa.X.(*ssa.IndexAddr); ok {
 		return constLenOf(ia.X.Type())
 	}
+	// a local copy of one element (`for _, f := range table`): every assignment of the local is an element of
+	// one fixed-size table
+	if al, ok := fa.X.(*ssa.Alloc); ok {
+		var n int64 = -1
+		for _, ref := range referrers(al) {
+			st, isStore := ref.(*ssa.Store)
+			if !isStore || st.Addr != ssa.Value(al) {
+				continue
+			}
+			var tbl ssa.Value
+			switch x := st.Val.(type) {
+			case *ssa.Index:
+				tbl = x.X
+			case *ssa.UnOp:
+				if ia, okI := x.X.(*ssa.IndexAddr); okI && x.Op == token.MUL {
+					tbl = ia.X
+				}
+			}
+			if tbl == nil {
+				return 0, false
+			}
+			k, okL := constLenOf(tbl.Type())
+			if !okL || (n >= 0 && n != k) {
+				return 0, false
+			}
+			n = k
+		}
+		if n >= 0 {
+			return n, true
+		}
+	}
 	return 0, false
 }
 
@@ -677,7 +708,7 @@ func (l *ledger) paramsConstIndex(fn *ssa.Function, ia *ssa.IndexAddr) (bool, st
 	if !ok || k < 0 {
 		return false, ""
 	}
-	if parent := fn.Parent(); parent != nil && parent.Name() == "buildKeywordNode" {
+	if isCondOperatorFn(l.w, fn) {
 		if k == 0 {
 			return true, "cond closure: applied only to a one-element argument literal (R-CONDARG)"
 		}
